@@ -28,7 +28,8 @@ ASSUMPTIONS = ['the model of the final result: a value returned on the endpoint 
                'BaseException subclasses that are not Exceptions are outside the property']
 
 ACCEPTS = [None, 'text/html', 'application/json', 'application/xml;q=0.9, */*;q=0.1']
-HANDLERS = ['default', 'debug', 'reraise', 'broken_render', 'other_error', 'broken_render_cls']
+HANDLERS = ['default', 'debug', 'reraise', 'broken_render', 'other_error', 'broken_render_cls',
+            'mixed_plain_ctxerr', 'mixed_ctx_plaininfo']
 
 
 def deadline_passed():
@@ -191,6 +192,17 @@ class App(object):
                 def render_error(self, request, _error):
                     return errors.Forbidden('instead of %s' % _error.code)
             kw['error_handler'] = Other()
+        elif handler == 'mixed_plain_ctxerr':
+            # documented class attributes combined by hand: plain handler, contextual 500 type
+            class MixedA(errors.ErrorHandler):
+                server_error_type = errors.ContextualInternalServerError
+            kw['error_handler'] = MixedA()
+        elif handler == 'mixed_ctx_plaininfo':
+            from boltons.tbutils import ExceptionInfo
+
+            class MixedB(errors.ContextualErrorHandler):
+                exc_info_type = ExceptionInfo
+            kw['error_handler'] = MixedB()
         AppType = Application
         if handler == 'broken_render_cls':
             # the failing handler is configured through the documented subclass attribute
@@ -411,7 +423,8 @@ def layer_a_items(tier):
     items = []
     for handler in HANDLERS:
         for where in positions():
-            for route in ('/r', '/n'):
+            # '/item' is followed by a method-restricted sibling route on the same path
+            for route in ('/r', '/n', '/item'):
                 items.append((handler, where, route))
     return items
 
